@@ -101,9 +101,17 @@ class Run:
         return None
 
     def pep440(self):
+        import re
         for ln in self.stdout.splitlines():
-            if ln.startswith("PEP440     : "):
-                return ln[len("PEP440     : "):]
+            m = re.match(r"^PEP440 +: (.*)$", ln)          # `test` and `show` pad the label differently
+            if m:
+                return m.group(1)
+        return None
+
+    def shown_version(self):
+        for ln in self.stdout.splitlines():
+            if ln.startswith("Current Version: "):
+                return ln[len("Current Version: "):]
         return None
 
     def ev(self, kind):
